@@ -72,7 +72,8 @@ static bool audit_phase(CheckState& st) {
     auto report = Json::arr(); bool ok = true;
     for (auto& c : cfgs) {
         std::string d = scratch + "/" + c.name;
-        std::string cmd = "mkdir -p " + d + " && cd /repo && for f in src/core/*.cpp src/bls12_381/*.cpp src/wkdibe/*.cpp src/lqibe/*.cpp src/core/arch/x86_64/*.cpp; do [ -f \"$f\" ] || continue; echo \"$f\"; done | xargs -P 16 -I{} sh -c '" + std::string(c.cxx) +
+        const char* repo_env = getenv("JV_REPO"); std::string repo = repo_env && *repo_env ? repo_env : "/repo";
+        std::string cmd = "mkdir -p " + d + " && cd " + repo + " && for f in src/core/*.cpp src/bls12_381/*.cpp src/wkdibe/*.cpp src/lqibe/*.cpp src/core/arch/x86_64/*.cpp; do [ -f \"$f\" ] || continue; echo \"$f\"; done | xargs -P 16 -I{} sh -c '" + std::string(c.cxx) +
             " -c -std=c++17 -I./include -Ofast " + (std::string(c.cxx) == "clang++" ? "-fno-vectorize " : "") + c.extra + " {} -o " + d + "/$(echo {} | tr / _).o' 2>&1 && for s in src/core/arch/x86_64/*.s; do as $s -o " + d + "/$(basename $s).o; done && ar rcs " + d + "/pairing.a " + d + "/*.o";
         int rc = 0; std::string out = sh(cmd + " 2>&1", &rc);
         if (rc != 0) { st.violated = true; st.v = {"C20", "audit:library-builds", std::string("configuration ") + c.name + " of the library does not build: " + out.substr(0, 400), 0}; ok = false; break; }
